@@ -8,7 +8,7 @@ from ..fold import Folder, Record, EnumMember, Ref, is_unknown, single_return_ex
 from ..absint import Interp, Hooks, State, K, Sym, Obj, Exc, NONE, ListVal, FuncVal, BoundMethod
 from ..report import Check
 from .. import util
-from .common import ForkHooks, labels_of, check_record
+from .common import ForkHooks, labels_of, check_record, check_no_shared_class_state
 
 PH = 'exactly_lib.cli_default.program_modes.test_case.phases.'
 IS = 'exactly_lib.common.instruction_setup'
@@ -62,6 +62,13 @@ def check(c: Check):
     clause_f(c)
     clause_g(c)
     clause_h(c)
+    # i: cross-reference targets / documentation objects are made per section, entity, instruction: nothing made for
+    # one of them is kept in a container shared by all (a memo keyed by less than what the value depends on gives
+    # the anchor of one phase to the same instruction of every other phase)
+    clause_j(c)
+    check_no_shared_class_state(c, 'C20-i', ['exactly_lib.definitions', 'exactly_lib.help', 'exactly_lib.cli.program_modes.help',
+                                             'exactly_lib.common.help', 'exactly_lib.util.textformat'], 300,
+                                'a target or text made for one section / entity is handed out for the others')
     from .common import sweep_records
     sweep_records(c, 'C20-rec', ['exactly_lib.help.contents_structure', 'exactly_lib.definitions.cross_ref', 'exactly_lib.common.help'], floor=8)
 
@@ -859,3 +866,106 @@ def clause_h(c: Check):
                  twice, sorted({type(x).__name__ for x in excl}), 'the ' + key_attr if key_attr else 'the object'), es.loc())
     c.expect(not never, 'C20-h', 'entity-chapters/all-rendered', 'entity types %s are rendered nowhere in the manual' % never, es.loc())
     c.floor('C20-h', 'entity types placed in the manual', len(all_ids), 8)
+
+
+# ---------------------------------------------------------------- j
+def clause_j(c: Check):
+    """EVAL of the name lookup behind `help PHASE NAME`, `help suite SECTION NAME`, `help ENTITY-TYPE NAME`
+    (util.value_lookup.lookup) over explicit lists of 1-3 symbolic (key, value) pairs and every way the pattern can
+    relate to each key (no match / sub string / identical; at most one identical): an identical key wins wherever it
+    stands in the list, otherwise a single sub-string match is the result, none is NoMatchError, several are
+    MultipleMatchesError.  A name that is also part of an earlier name (`home` / `act-home`, `STRING` /
+    `RICH-STRING`) must still be found."""
+    import itertools
+    ix, fo = c.ix, c.fo
+    VL = 'exactly_lib.util.value_lookup'
+    lk = ix.func(VL + ':lookup')
+    match_cls = ix.cls(VL + ':Match')
+    no_match = ix.cls(VL + ':NoMatchError')
+    multi = ix.cls(VL + ':MultipleMatchesError')
+    # users: the help argument lookup goes through it
+    users = [s_ for s_ in util.call_sites_of(ix, lk)]
+    c.floor('C20-j', 'users of value_lookup.lookup', len(users), 1)
+    n_worlds = 0
+    pk, pv = [p_.arg for p_ in lk.positional_params()[:2]]
+    for n in (1, 2, 3):
+        for world in itertools.product(('none', 'sub', 'exact'), repeat=n):
+            if world.count('exact') > 1:
+                continue
+            n_worlds += 1
+            keys = [Sym('key%d' % i, origin=('key', i)) for i in range(n)]
+            vals = [Sym('value%d' % i, origin=('value', i)) for i in range(n)]
+            pattern = Sym('pattern', origin=('pattern',))
+
+            def norm(v):
+                # the (possibly case-normalised) key / pattern a value stands for
+                seen = 0
+                while isinstance(v, Sym) and seen < 6:
+                    seen += 1
+                    o = util.root_sym(v).origin
+                    if o and o[0] in ('key', 'pattern'):
+                        return o
+                    if o and o[0] == 'normalised':
+                        v = o[1]
+                        continue
+                    return None
+                return None
+
+            class H(Hooks):
+                loop_bound = 4
+
+                def on_call(self, interp, node, callee, callee_def, args, kwargs, st):
+                    if isinstance(node.func, ast.Attribute) and node.func.attr in ('upper', 'lower', 'casefold') and not args:
+                        recv = None
+                        if isinstance(callee, Sym) and callee.origin and callee.origin[0] == 'attr':
+                            recv = callee.origin[1]
+                        if recv is not None and norm(recv) is not None:
+                            return [('val', Sym('normalised', origin=('normalised', recv), truth=None), st)]
+                    return None
+
+                def on_compare(self, interp, op, l, r, st, test, world=world):
+                    a, b = norm(l), norm(r)
+                    if a is None or b is None:
+                        return None
+                    neg = isinstance(op, (ast.NotEq, ast.NotIn))
+                    if isinstance(op, (ast.Eq, ast.NotEq)):
+                        if {a[0], b[0]} != {'key', 'pattern'}:
+                            return None
+                        i = a[1] if a[0] == 'key' else b[1]
+                        return (world[i] == 'exact') != neg
+                    if isinstance(op, (ast.In, ast.NotIn)) and a[0] == 'pattern' and b[0] == 'key':
+                        return (world[b[1]] in ('sub', 'exact')) != neg
+                    return None
+
+            it = Interp(ix, fo, H())
+            pairs = ListVal([ListVal([k, v], True) for k, v in zip(keys, vals)])
+            paths = it.run_function(lk, {pk: pattern, pv: pairs})
+            c.count(len(paths))
+            if 'exact' in world:
+                j = world.index('exact')
+                want = ('match', j, True)
+            else:
+                subs = [i for i, w in enumerate(world) if w == 'sub']
+                want = ('none',) if not subs else (('match', subs[0], False) if len(subs) == 1 else ('multiple',))
+            got = set()
+            for p in paths:
+                if p.kind == 'raise':
+                    cls_ = p.val.cls if isinstance(p.val, Exc) else None
+                    got.add(('none',) if cls_ == no_match else ('multiple',) if cls_ == multi else ('raises', util.describe(p.val)))
+                    continue
+                con = util.constructed(ix, p.val)
+                if con is None or con[0] != match_cls.key:
+                    got.add(('?', util.describe(p.val)))
+                    continue
+                by = con[3]
+                k_, v_, e_ = by.get('key'), by.get('value'), by.get('is_exact_match')
+                ko = util.root_sym(k_).origin if isinstance(k_, Sym) else None
+                vo = util.root_sym(v_).origin if isinstance(v_, Sym) else None
+                if ko and vo and ko[0] == 'key' and vo[0] == 'value' and ko[1] == vo[1] and isinstance(e_, K):
+                    got.add(('match', ko[1], e_.v))
+                else:
+                    got.add(('?', util.describe(k_), util.describe(v_), util.describe(e_)))
+            c.expect(got == {want}, 'C20-j', 'lookup/' + '-'.join(world),
+                     'looking up a name that relates to the keys of the list as %s gives %s (documented: %s)' % (
+                         list(world), sorted(got, key=str), want), lk.loc())
+    c.floor('C20-j', 'key lists the name lookup is evaluated on', n_worlds, 30)
